@@ -1,8 +1,4 @@
 // ------------------------------------------------------------------ wasm.rs : with_storage, call_*, verify_*, storage accessors
-//@ item src/wasm.rs :: const NAMESPACE_WASM
-//@   replace "&[u8]" => "&'static [u8]"
-//@ end
-
 //@ impl_open src/wasm.rs :: WasmKeeper
 //@   pick fn with_storage
 //@   replace "ExecC: CustomMsg + DeserializeOwned + 'static," => ""
@@ -30,12 +26,6 @@
 //@   before? "::multilevel(storage, &[NAMESPACE_WASM, &namespace]);" proof { assert forall|a: Seq<&[u8]>| a.len() == 2 && a[0]@ == ns_wasm() && a[1]@ == namespace@ implies #[trigger] slices_view(a) == seq![ns_wasm(), namespace@] by { assert(slices_view(a) =~= seq![ns_wasm(), namespace@]); } }
 //@ end
 
-//@ fn src/wasm.rs :: WasmKeeper :: code_data
-//@   ret r
-//@   ensures [C11.code_data.total] (r is Ok) == (code_id >= 1 && self.code_data@.contains_key(code_id))
-//@   ensures [C11.code_data.value] r is Ok ==> *r.unwrap() == self.code_data@[code_id]
-//@   replace_re? "\\.ok_or_else\\(\\|\\| Error::unregistered_code_id\\(code_id\\)\\)" => ".ok_or(AnyError)"
-//@ end
 //@ fn src/wasm.rs :: WasmKeeper :: contract_code
 //@   ret r
 //@   begin proof { axiom_keeper_wf(self); }
